@@ -233,6 +233,14 @@ func discharge(u *Universe, o *Obligation, dir string, timeoutS int, confirm boo
 	if r.result != "unsat" {
 		o.Model = truncate(r.out, 6000)
 	}
+	// the queries of obligations that came out as expected are not kept (a check writes several GB otherwise); those of
+	// failed obligations stay for the replay file.  "gocv verify" (directory "dev") and GOCV_KEEP_SMT keep everything.
+	if filepath.Base(dir) != "dev" && os.Getenv("GOCV_KEEP_SMT") == "" && ((!o.Cover && r.result == "unsat") || (o.Cover && r.result == "sat")) {
+		os.Remove(fname)
+		for _, v := range variants {
+			os.Remove(v.file)
+		}
+	}
 }
 
 func sanitizeFile(s string) string {
